@@ -26,10 +26,13 @@ FORMAT_DEFS = {
 
 
 # ------------------------------------------------------------------------------------- text writer
-def header_lines(spec):
-    lines = ["##fileformat=VCFv4.2",
-             '##FILTER=<ID=PASS,Description="All filters passed">',
-             '##FILTER=<ID=q10,Description="Quality below 10">',
+def format_line(fid, num, typ):
+    return f'##FORMAT=<ID={fid},Number={num},Type={typ},Description="{fid} value">'
+
+
+def default_meta(spec):
+    """meta lines after the first two in the fixed layout (FILTER, contig, phasing, INFO, FORMAT)"""
+    lines = ['##FILTER=<ID=q10,Description="Quality below 10">',
              '##FILTER=<ID=s50,Description="Less than half of samples have data">']
     lines += [f"##contig=<ID={c},length=1000000>" for c in spec["contigs"]]
     for p in spec.get("phasing") or []:
@@ -40,12 +43,54 @@ def header_lines(spec):
     if spec.get("info_ps"):
         lines.append('##INFO=<ID=PS,Number=1,Type=Integer,Description="An INFO field that happens to be called PS">')
     for fid, num, typ in spec["formats"]:
-        lines.append(f'##FORMAT=<ID={fid},Number={num},Type={typ},Description="{fid} value">')
+        lines.append(format_line(fid, num, typ))
+    return lines
+
+
+def header_lines(spec):
+    """`##fileformat` and the PASS filter come first (htslib puts them there anyway); the other meta lines are
+    spec["meta"] if given (any order, any number of ##phasing lines), else the fixed layout"""
+    lines = ["##fileformat=VCFv4.2", '##FILTER=<ID=PASS,Description="All filters passed">']
+    lines += spec["meta"] if spec.get("meta") is not None else default_meta(spec)
     cols = "#CHROM\tPOS\tID\tREF\tALT\tQUAL\tFILTER\tINFO"
     if spec["samples"]:
         cols += "\tFORMAT\t" + "\t".join(spec["samples"])
     lines.append(cols)
     return lines
+
+
+def is_tag_def(line):
+    return any(line.startswith(f"##FORMAT=<ID={k},") for k in PHASE_KEYS)
+
+
+def insert_phasing(rng, meta, n, p_before_tag=0.6):
+    """insert n `##phasing=` lines into the meta lines: preferably directly before the FORMAT definition of HP, PS or
+    PQ (also two in a row), else anywhere (including the very end)"""
+    meta = list(meta)
+    for j in range(n):
+        tagpos = [i for i, l in enumerate(meta) if is_tag_def(l)]
+        if tagpos and rng.random() < p_before_tag:
+            pos = rng.choice(tagpos)
+        else:
+            pos = rng.randint(0, len(meta))
+        meta.insert(pos, "##phasing=" + rng.choice(["whatshap", "none", "partial", "yes"]) + str(j))
+    return meta
+
+
+def random_meta(rng, spec):
+    """header layout: FORMAT definitions in random order, interleaved with INFO / FILTER / contig lines, and 0-3
+    `##phasing` lines"""
+    base = [l for l in default_meta({**spec, "phasing": None})]
+    mode = rng.choice(["grouped", "shuffled", "shuffled", "formats-shuffled"])
+    if mode == "shuffled":
+        rng.shuffle(base)
+    elif mode == "formats-shuffled":
+        fm = [l for l in base if l.startswith("##FORMAT")]
+        rng.shuffle(fm)
+        it = iter(fm)
+        base = [next(it) if l.startswith("##FORMAT") else l for l in base]
+    n = rng.choice([0, 1, 1, 2, 2, 3])
+    return insert_phasing(rng, base, n)
 
 
 def record_line(spec, rec):
@@ -172,6 +217,8 @@ def gen_spec(rng, profile=None):
     spec = {"samples": samples, "contigs": ["chrA", "chrB"][:rng.randint(1, 2)],
             "phasing": rng.choice([None, None, ["whatshap"], ["none"], ["partial"]]),
             "info_ps": rng.random() < 0.15, "formats": formats, "profile": profile, "records": []}
+    spec["phasing"] = None
+    spec["meta"] = random_meta(rng, spec)
     nrec = rng.choice([1, 1, 2, 3, 4, 6, 8])
     pos = rng.randint(1, 2000)
     chrom_i = 0
@@ -270,6 +317,44 @@ def multi_call_spec(fmt, calls, nrec_before=0):
     return s
 
 
+def with_layout(spec, layout):
+    """header layouts for the single-record specs: where the `##phasing` lines sit relative to the tag definitions"""
+    base = default_meta({**spec, "phasing": None})
+
+    def before(tag, k=1):
+        out = []
+        for l in base:
+            if l.startswith(f"##FORMAT=<ID={tag},"):
+                out += [f"##phasing={tag}{j}" for j in range(k)]
+            out.append(l)
+        return out
+    if layout == "fixed":
+        return spec
+    spec = dict(spec)
+    spec["phasing"] = None
+    if layout == "none":
+        spec["meta"] = base
+    elif layout in ("PS", "HP", "PQ"):
+        spec["meta"] = before(layout)
+    elif layout == "PS2":
+        spec["meta"] = before("PS", 2)
+    elif layout == "each":
+        m = base
+        for t in ("PS", "HP", "PQ"):
+            base = m
+            m = before(t)
+        spec["meta"] = m
+    elif layout == "end":
+        spec["meta"] = base + ["##phasing=last"]
+    elif layout == "reversed":
+        spec["meta"] = list(reversed(before("HP"))) + ["##phasing=z"]
+    else:
+        raise KeyError(layout)
+    return spec
+
+
+LAYOUTS = ["fixed", "PS", "HP", "PQ", "PS2", "each", "none", "end", "reversed"]
+
 # tag sets attached to the exhaustive genotypes: chosen independently of the separator
 TAG_SETS = [[], ["PS"], ["HP"], ["PQ"], ["DP", "PS", "HP", "PQ"], ["DP"], ["PS", "PQ"]]
 
@@ -280,6 +365,7 @@ def exhaustive_specs(max_ploidy, full_tags_upto=3):
     import itertools
     out = []
     n = 0
+    k = 0
     for p in range(1, max_ploidy + 1):
         for al in itertools.product(["0", "1", "."], repeat=p):
             texts = [al[0]] if p == 1 else ["/".join(al), "|".join(al)]
@@ -290,12 +376,37 @@ def exhaustive_specs(max_ploidy, full_tags_upto=3):
                 if ts in seen:
                     continue
                 seen.append(ts)
+                lay = LAYOUTS[k % len(LAYOUTS)]      # the same for the '/' and the '|' form
+                k += 1
                 for t in texts:
-                    out.append(single_call_spec(t, tags=ts))
+                    out.append(with_layout(single_call_spec(t, tags=ts), lay))
     # tag-only records without GT
     for ts in TAG_SETS[1:]:
-        out.append(single_call_spec(None, tags=ts))
+        for lay in ("fixed", "PS", "each"):
+            out.append(with_layout(single_call_spec(None, tags=ts), lay))
+    # every header layout with every single tag next to a phased and an unphased diploid genotype
+    for lay in LAYOUTS:
+        for ts in (["PS"], ["HP"], ["PQ"], ["DP", "PS", "HP", "PQ"], []):
+            for t in ("1|0", "1/0"):
+                out.append(with_layout(single_call_spec(t, tags=ts), lay))
     return out
+
+
+def gen_malformed_spec(rng):
+    """a generated file in which HP / PS / PQ values occur in records although the header does not declare them
+    (not a well-formed VCF: htslib warns and assumes Type=String).  Compared on the exception class only."""
+    for _ in range(200):
+        spec = gen_spec(rng, profile=rng.choice(["tame", "mild"]))
+        used = {k for r in spec["records"] for k in r["format"] if k in PHASE_KEYS}
+        if not used or not spec["samples"]:
+            continue
+        drop = {k for k in used if rng.random() < 0.7} or {sorted(used)[0]}
+        spec["meta"] = [l for l in spec["meta"] if not any(l.startswith(f"##FORMAT=<ID={k},") for k in drop)]
+        spec["formats"] = [f for f in spec["formats"] if f[0] not in drop]
+        spec["profile"] = "malformed"
+        spec["undeclared"] = sorted(drop)
+        return spec
+    raise RuntimeError("could not generate a malformed spec")
 
 
 # ------------------------------------------------------------------------------------------ parser
